@@ -345,3 +345,8 @@ func sortedKeys[V any](m map[string]V) []string {
 	sort.Strings(ks)
 	return ks
 }
+
+// refPathRe matches complete dotted reference paths ($.input.x.y, $.steps.s.stage.output.field).
+func refPathRe() *regexp.Regexp {
+	return regexp.MustCompile(`\$\.(?:input|steps)(?:\.[A-Za-z0-9_]+)*`)
+}
